@@ -613,3 +613,16 @@ V("S4-mapweights-coef", ["C05"], "gmm", "alpha * ml_weights + (1 - alpha) * mach
 V("S4-wccn-scale-division", ["C14"], "wccn", "scaled_Sw = 1 / n_classes * Sw", "scaled_Sw = Sw / n_classes", "scaling spelled as a division", kind="benign")
 V("R1-noevidence-threshold-const", ["C05"], "gmm", "machine.means = np.where(statistics.n[:, None] < mean_var_update_threshold, machine.ubm.means, new_means)", "machine.means = np.where(statistics.n[:, None] < EPSILON, machine.ubm.means, new_means)", "no-evidence test against a module constant instead of the configured threshold (seeded C15-s1)")
 V("R1-noevidence-named-mask", ["C05"], "gmm", "machine.means = np.where(statistics.n[:, None] < mean_var_update_threshold, machine.ubm.means, new_means)", "unseen = statistics.n[:, None] < mean_var_update_threshold\n        machine.means = np.where(unseen, machine.ubm.means, new_means)", "the mask bound to a name first", kind="benign")
+
+# ----------------------------------------------------------------------------- third seeding round: layout, position, coincidence traps
+V("R3-supervector-layout", ["C11"], "factor_analysis", "return self.ubm.means.flatten()", "return self.ubm.means.ravel(order='K')", "mean supervector follows the memory layout of the UBM means")
+V("R3-supervector-ravel-c", ["C11"], "factor_analysis", "return self.ubm.means.flatten()", "return self.ubm.means.reshape(-1).copy()", "supervector spelled with reshape(-1)", kind="benign")
+V("R3-enumerate-filtered", ["C07", "C09"], "factor_analysis", "        for session_id, x_i_s in enumerate(X_i):\n            n_i = x_i_s.n\n            tmp_CD = np.repeat(n_i, self.feature_dimension)\n            x_i_h = latent_x_i[:, session_id]\n            fn_z_i -= tmp_CD * (U @ x_i_h)\n        return fn_z_i", "        for session_id, x_i_s in enumerate((x for x in X_i if np.any(x.n))):\n            n_i = x_i_s.n\n            tmp_CD = np.repeat(n_i, self.feature_dimension)\n            x_i_h = latent_x_i[:, session_id]\n            fn_z_i -= tmp_CD * (U @ x_i_h)\n        return fn_z_i", "sessions without frames filtered out before enumerate: later sessions paired with the wrong column of E[x]")
+V("R3-enumerate-skip-inside", ["C07", "C09"], "factor_analysis", "        for session_id, x_i_s in enumerate(X_i):\n            n_i = x_i_s.n\n            tmp_CD = np.repeat(n_i, self.feature_dimension)\n            x_i_h = latent_x_i[:, session_id]\n            fn_z_i -= tmp_CD * (U @ x_i_h)\n        return fn_z_i", "        for session_id, x_i_s in enumerate(X_i):\n            n_i = x_i_s.n\n            if not np.any(n_i):\n                continue\n            tmp_CD = np.repeat(n_i, self.feature_dimension)\n            x_i_h = latent_x_i[:, session_id]\n            fn_z_i -= tmp_CD * (U @ x_i_h)\n        return fn_z_i", "empty sessions skipped inside the loop (positions unchanged; they contribute zero anyway)", kind="benign")
+V("R3-reduceat", ["C04", "C06"], "kmeans", "    for i in range(n_clusters):\n        first_order_statistics[i] = np.sum(data[closest_k_indices == i], axis=0)", "    order = np.argsort(closest_k_indices, kind='stable')\n    starts = np.cumsum(zeroeth_order_statistics) - zeroeth_order_statistics\n    first_order_statistics[:] = np.add.reduceat(np.vstack([data[order], np.zeros((1, data.shape[1]))]), starts.astype(int), axis=0)", "per-cluster sums by np.add.reduceat: an empty cluster receives a row of the next one")
+V("R3-offset-coincidence", ["C08", "C11"], "linear_scoring", "    test_channel_offsets = np.array(test_channel_offsets)\n", "    test_channel_offsets = np.array(test_channel_offsets)\n    if test_channel_offsets.ndim >= 2 and test_channel_offsets.shape[0] == len(test_stats):\n        test_channel_offsets = test_channel_offsets.reshape(len(test_stats), -1, ubm.means.shape[-1])\n", "a shared (C, D) offset is re-read as per-probe offsets when the number of probes happens to equal the number of components")
+V("R3-load-like-with-like", ["C18"], "gmm", "if new_self.shape != self.shape:", "if new_self.n_gaussians != self.n_gaussians or new_self.n_features != self.n_gaussians:", "GMMStats.load compares the file's n_features with the target's n_gaussians")
+V("R3-load-fieldwise", ["C18"], "gmm", "if new_self.shape != self.shape:", "if new_self.n_gaussians != self.n_gaussians or new_self.n_features != self.n_features:", "shape comparison written field by field", kind="benign")
+V("R3-view-inplace", ["C01", "C02"], "gmm", "    responsibility = np.exp(log_weighted_likelihoods - log_likelihood[None, :])", "    log_likelihood = log_weighted_likelihoods[0] if len(log_weighted_likelihoods) == 1 else log_likelihood\n    log_weighted_likelihoods -= log_likelihood[None, :]\n    responsibility = np.exp(log_weighted_likelihoods)", "normalisation in place while the per-sample log-likelihood may be a view of the array being changed (single component)")
+V("R3-mahalanobis-expanded", ["C01"], "gmm", "        temp = np.sum((data - machine.means[i]) ** 2 / machine.variances[i], axis=-1)", "        temp = np.square(data) @ (1.0 / machine.variances[i]) - 2.0 * (data @ (machine.means[i] / machine.variances[i])) + np.sum(machine.means[i] ** 2 / machine.variances[i])", "Mahalanobis distance by the expanded form x^2/v - 2 x m/v + m^2/v (cancellation far from the origin)")
+V("R3-position-split", ["C16", "C09"], "factor_analysis", "            for y_i in unique_labels(y):\n                latent_x[y_i] = self._compute_latent_x_per_class(X_i=self._get_statistics_by_class_id(X, y, y_i),", "            labels_, counts_ = np.unique(np.asarray(y), return_counts=True)\n            bounds_ = np.concatenate([[0], np.cumsum(counts_)])\n            for y_i in unique_labels(y):\n                latent_x[y_i] = self._compute_latent_x_per_class(X_i=X[bounds_[y_i]:bounds_[y_i + 1]],", "sessions of a class taken as a run of positions from cumulative class counts (right only for labels sorted by class)")
